@@ -31,7 +31,7 @@ ASSUMPTIONS = ["vf/parse_code.py / vf/parse_latex.py readers", "the HTML (Sphinx
                "leaf identity between the page and the imported module is by display name (clashes -> inconclusive)"]
 MIN_REACH = {"quick": {"documented_members_expected": 3000, "runs_ok": 4, "pages_checked": 700, "equations_code_checked": 500, "equations_latex_checked": 450,
                        "symbol_blocks_checked": 1500, "attr_targets_checked": 1000, "runs_compared": 3, "battery_compared": 4},
-             "thorough": {"runs_ok": 9, "pages_checked": 700, "equations_code_checked": 500}}
+             "thorough": {"partial_generations": 6, "runs_ok": 15, "pages_checked": 700, "equations_code_checked": 500}}
 SHARD_TIMEOUT = {"quick": 1500, "thorough": 3300}
 NPROC = 6
 
@@ -45,6 +45,11 @@ def plan(tier, seed):
     if tier == "thorough":
         for i in range(5):
             runs.append({"name": f"permuted-{i}", "pre": ["nothing", "computations"][i % 2], "hashseed": str(7 + i + seed), "shuffle_walk": 100 + i + seed})
+    if tier == "thorough":
+        # partial generations: one top-level package alone (pages generated before other library use, in another order)
+        for pkg in ("symplyphysics/definitions", "symplyphysics/conditions", "symplyphysics/laws/dynamics", "symplyphysics/laws/thermodynamics",
+                    "symplyphysics/laws/electricity", "symplyphysics/laws/optics"):
+            runs.append({"name": "partial:" + pkg.split("symplyphysics/")[-1], "pre": "nothing", "hashseed": "0", "laws_source_dir": pkg})
     specs = [{"_label": r["name"], "kind": "run", "run": r, "seed": seed} for r in runs]
     return specs
 
@@ -53,6 +58,8 @@ def run_driver(run, outdir):
     spec = {"out": outdir, "pre": run.get("pre", "nothing")}
     if run.get("shuffle_walk") is not None:
         spec["shuffle_walk"] = run["shuffle_walk"]
+    if run.get("laws_source_dir"):
+        spec["laws_source_dir"] = run["laws_source_dir"]
     tmp = tempfile.mkdtemp(prefix="vf_docs_")
     sp, rp = os.path.join(tmp, "spec.json"), os.path.join(tmp, "report.json")
     with open(sp, "w") as f:
@@ -377,8 +384,10 @@ def work(spec, rec):
         if c.get("disable") != c.get("reset"):
             rec.violation("evaluation-flag-unbalanced", f"run {run['name']}: {c.get('disable')} disable vs {c.get('reset')} reset calls", {"run": run})
         rec.extra["runs"] = {run["name"]: {"files": rep["files"], "battery": rep["battery"], "counts": c}}
-        if run["name"] != "canonical":
+        if run["name"] != "canonical" and not run.get("laws_source_dir"):
             compare_with_canonical(run, outdir, rec, r)
+        if run.get("laws_source_dir"):
+            rec.hit("partial_generations")
         if run["name"] == "canonical":
             n = analyse_pages(outdir, rec, r)
             rec.sample({"run": run["name"], "pages": n, "flag_trace_counts": c})
